@@ -71,6 +71,61 @@ def _lt(a_text: str, b_text: str, pol: bool):
 EMPTINESS = [True]  # sa.summary switches the len()-emptiness rewriting off: it reasons on lengths as integers
 
 
+INT_TEXTS: set = set()  # texts known to be integer-valued in the tree under analysis (model.Repo.int_texts, set by report.Ctx)
+
+
+def _is_int_expr(n) -> bool:
+    if _is_int(n) or _len_arg(n) is not None:
+        return True
+    if isinstance(n, ast.Call) and isinstance(n.func, ast.Name) and n.func.id in ("int", "ord") and not n.keywords:
+        return True
+    if isinstance(n, ast.UnaryOp) and isinstance(n.op, (ast.USub, ast.UAdd)):
+        return _is_int_expr(n.operand)
+    if isinstance(n, ast.BinOp) and isinstance(n.op, (ast.Add, ast.Sub, ast.Mult)):
+        return _is_int_expr(n.left) and _is_int_expr(n.right)
+    if isinstance(n, (ast.Attribute, ast.Name)):
+        return norm(n) in INT_TEXTS
+    return False
+
+
+def _split_const(n):
+    """(non-constant part or None, integer offset) of `e + c` / `e - c` / `c + e`."""
+    c = _const_int(n)
+    if c is not None:
+        return None, c
+    if isinstance(n, ast.BinOp) and isinstance(n.op, (ast.Add, ast.Sub)):
+        rc = _const_int(n.right)
+        if rc is not None:
+            base, c0 = _split_const(n.left)
+            return base, c0 + (rc if isinstance(n.op, ast.Add) else -rc)
+        lc = _const_int(n.left)
+        if lc is not None and isinstance(n.op, ast.Add):
+            base, c0 = _split_const(n.right)
+            return base, c0 + lc
+    return n, 0
+
+
+def _int_order(left, op, right, truth):
+    """Both sides integer-valued: one atom `A < B + k` with A, B in text order (a + 1 < b  ==  not b < a + 2)."""
+    a, c1 = _split_const(left)
+    b, c2 = _split_const(right)
+    if a is None or b is None:
+        return None
+    o = type(op)
+    if o is ast.Lt:
+        k = c2 - c1
+    elif o is ast.LtE:
+        k = c2 - c1 + 1
+    elif o is ast.Gt:
+        a, b, k = b, a, c1 - c2
+    else:
+        a, b, k = b, a, c1 - c2 + 1
+    at, bt = norm(a), norm(b)
+    if at > bt:  # not (a < b + k)  ==  b + k <= a  ==  b < a + 1 - k
+        at, bt, k, truth = bt, at, 1 - k, not truth
+    return {(f"{at} < {bt}" + (f" + {k}" if k > 0 else f" - {-k}" if k < 0 else ""), truth)}
+
+
 def _order(left, op, right, truth):
     """Canonical atoms for an order comparison; None if not handled."""
     lc, rc = _const_int(left), _const_int(right)
@@ -109,6 +164,10 @@ def _order(left, op, right, truth):
         if o is ast.Gt:  # c > a == a < c
             return _lt(rt, str(lc), truth)
         return _lt(rt, str(lc + 1), truth)  # c >= a == a < c+1
+    if lc is None and rc is None and _is_int_expr(left) and _is_int_expr(right):
+        r = _int_order(left, op, right, truth)
+        if r is not None:
+            return r
     if o is ast.Lt:
         return _lt(lt, rt, truth)
     if o is ast.GtE:
@@ -164,6 +223,10 @@ def canon(test, truth: bool = True) -> set:
             if isinstance(left, ast.Constant) and not isinstance(right, ast.Constant):
                 left, right = right, left
             return {(f"{norm(left)} == {norm(right)}", truth)}
+        if isinstance(op, ast.In) and isinstance(right, (ast.List, ast.Tuple, ast.Set)) and right.elts and not any(isinstance(e, ast.Starred) for e in right.elts):
+            # membership in a display: neither the kind of display nor the order of its elements matters
+            elts = sorted({norm(e) for e in right.elts})
+            return {(f"{norm(left)} in ({', '.join(elts)}{',' if len(elts) == 1 else ''})", truth)}
         r = _order(left, op, right, truth)
         if r is not None:
             return r
